@@ -160,7 +160,12 @@ func check(tt *testing.T, c Case) (pbt.Info, error) {
 	info.Label("kind:" + c.Cfg.Kind)
 	info.Label("panic:" + c.Panic)
 	_, sent := handlerProg(c)
-	res, ex, calls := run(c, true)
+	var res *prog.CResult
+	var ex *memnet.Exchange
+	var calls []recCall
+	if berr := pbt.Bubble(tt, func() error { res, ex, calls = run(c, true); return nil }); berr != nil {
+		return info, berr
+	}
 	where := fmt.Sprintf("%s/%s panic(%s) after %d steps, %d interceptors before and %d behind WithRecover", c.Cfg.Protocol, c.Cfg.Kind, c.Panic, c.After, c.Before, c.Behind)
 	if ex == nil {
 		return info, fmt.Errorf("%s: no exchange", where)
@@ -171,7 +176,11 @@ func check(tt *testing.T, c Case) (pbt.Info, error) {
 		if len(calls) != 0 {
 			return info, fmt.Errorf("%s: recovery function called %d times although nothing panicked", where, len(calls))
 		}
-		res2, ex2, _ := run(c, false)
+		var res2 *prog.CResult
+		var ex2 *memnet.Exchange
+		if berr := pbt.Bubble(tt, func() error { res2, ex2, _ = run(c, false); return nil }); berr != nil {
+			return info, berr
+		}
 		if ex.Status != ex2.Status || !bytes.Equal(ex.RespBody(), ex2.RespBody()) || !reflect.DeepEqual(ex.RespHeader, ex2.RespHeader) || !reflect.DeepEqual(ex.RespTrailer, ex2.RespTrailer) {
 			return info, fmt.Errorf("%s: exchange with WithRecover differs from the same handler without it: %d %v %x %v vs %d %v %x %v", where, ex.Status, ex.RespHeader, ex.RespBody(), ex.RespTrailer, ex2.Status, ex2.RespHeader, ex2.RespBody(), ex2.RespTrailer)
 		}
